@@ -183,10 +183,25 @@ def body(chk, db, cfgname):
                               "the table was reduced to rank 0 of comm.split(colour), i.e. the FIRST (lowest) rank: the published table is the all-zero buffer of a non-root rank" % (M[2], shp["var"][2]))
             else:
                 verdict = (j, "cannot establish that %s[colour] holds the lowest rank of the colour" % M[2])
-        if verdict is None:
-            r3.ok(site, h.loc(writes[0][0]), "per-colour root is recorded first-writer-wins / as a minimum: it is rank 0 of the split communicator", cfgname)
+        # cross-check / decide by interpreting the colour bookkeeping (everything before the first barrier) for small
+        # communicator sizes and component counts: the recorded root of a colour must be the lowest rank of that colour
+        witness, ncases = None, 0
+        try:
+            witness, ncases = roots_by_interpretation(db, h, hctx, M, pubs)
+        except AnalysisBroken as e_:
+            if verdict is None:
+                r3.ok(site, h.loc(writes[0][0]), "per-colour root is recorded first-writer-wins / as a minimum: it is rank 0 of the split communicator", cfgname)
+            else:
+                r3.bad(site, h.loc(verdict[0]), verdict[1], cfgname)
+            continue
+        if witness is not None:
+            r3.bad(site, h.loc(writes[0][0]), (verdict[1] + "; " if verdict is not None and "LAST rank" in verdict[1] and witness[4] == "last" else "") +
+                   "with %d ranks and %d components the root recorded for colour %d is rank %d, but the lowest rank of that colour (rank 0 of comm.split(colour), where the table was reduced) is rank %d: "
+                   "the table is published from a rank that does not hold it" % witness[:4] if False else
+                   "with %d ranks and %d components the root recorded for colour %d is rank %s, but the lowest rank of that colour (rank 0 of comm.split(colour), where the table was reduced) is rank %d: the table is published from a rank that does not hold it" % witness[:5], cfgname)
         else:
-            r3.bad(site, h.loc(verdict[0]), verdict[1], cfgname)
+            r3.ok(site, h.loc(writes[0][0]), "per-colour root == lowest rank of the colour (%s; bookkeeping interpreted for %d (ranks, components) combinations up to 9 x 6)" % (
+                "first-writer-wins / minimum form" if verdict is None else "unrecognised form", ncases), cfgname)
 
     # ================================================================== R4
     r4 = chk.rule("C06-R4", "every field written by a distributed part computation is transmitted to / set on the ranks that did not run it", "F4 effect vs sync set", 4)
@@ -445,6 +460,58 @@ def same_product(a, b):
             return factors(k[2]) + factors(k[3])
         return [k]
     return sorted(map(repr, factors(a))) == sorted(map(repr, factors(b)))
+
+
+def roots_by_interpretation(db, h, hctx, M, pubs):
+    """interpret computeAll_split up to its first collective for small (ranks, components); returns (witness or None, cases)"""
+    from pv.summ import DMap, Interp, Obj, Stop, Thrown
+
+    class _Comm(Obj):
+        pass
+    names = {v["n"]: d for d, v in hctx.decls.items()}
+    # the colour map: the argument of comm.split(...)
+    split = [j for j, n in h.walk(h.body) if n["k"] == "call" and strip_targs(n.get("cname") or "") == "boost::mpi::communicator::split"]
+    if len(split) != 1:
+        raise AnalysisBroken("computeAll_split: expected one comm.split")
+    ck = hctx.key(h.nodes[split[0]]["args"][0], inline=False)
+    if not (ck[0] == "op" and ck[1] == "[]" and ck[2][0] == "var"):
+        raise AnalysisBroken("computeAll_split: the colour is not read from a per-rank map")
+    colmap = ck[2][1]
+    ncases = 0
+    for P in range(1, 10):
+        for C in range(1, 7):
+            def stop(fr, i, obj, args):
+                raise Stop()
+            prims = {"boost::mpi::communicator::size": lambda fr, i, obj, args, _P=P: _P,
+                     "boost::mpi::communicator::rank": lambda fr, i, obj, args: 0,
+                     "boost::mpi::communicator::barrier": stop, "boost::mpi::communicator::split": stop,
+                     "std::min": lambda fr, i, obj, args: min(args), "std::max": lambda fr, i, obj, args: max(args),
+                     "construct std::map": lambda fr, i, args: DMap(int)}
+            ip = Interp(db, prims)
+            this = Obj("TwoParticleGFContainer", **{"Pomerol::IndexContainer4::NonTrivialElements": {k: None for k in range(C)}, "Pomerol::IndexContainer4::ElementsMap": {}})
+            args = []
+            for p_ in h.params:
+                t = p_.get("t", "")
+                args.append(_Comm("comm") if "communicator" in t else (False if t == "bool" else []))
+            try:
+                ip.call_fn(h, args, this=this)
+                raise AnalysisBroken("computeAll_split: interpretation ran past the end without reaching a collective")
+            except Stop:
+                pass
+            except Thrown as t_:
+                raise AnalysisBroken("computeAll_split: interpreted bookkeeping throws %s at %s" % (t_.tt, t_.where))
+            env = ip.top.env
+            colours = env.get(colmap)
+            roots = env.get(M[1])
+            if not isinstance(colours, dict) or not isinstance(roots, dict):
+                raise AnalysisBroken("computeAll_split: colour / root maps not found among the interpreted locals")
+            ncases += 1
+            for c in sorted(set(colours.values())):
+                lowest = min(p for p, cc in colours.items() if cc == c)
+                if roots.get(c) != lowest:
+                    last = max(p for p, cc in colours.items() if cc == c)
+                    return (P, C, c, roots.get(c), lowest, "last" if roots.get(c) == last else "other"), ncases
+    return None, ncases
 
 
 def extent_keys(X, dataname):
